@@ -30,6 +30,21 @@ fn main() {
         std::panic::set_hook(Box::new(|_| {}));
     }
     match argv[1].as_str() {
+        "chars-check" => {
+            // the generated character table of the specification against the real char functions of Rust
+            let table: serde_json::Value = serde_json::from_str(&std::fs::read_to_string(args.req("table")).expect("table")).expect("json");
+            let mut bad = Vec::new();
+            for row in table.as_array().unwrap() {
+                let c = row["c"].as_str().unwrap().chars().next().unwrap();
+                let up: String = c.to_uppercase().collect();
+                let lo: String = c.to_lowercase().collect();
+                if row["alnum"] != c.is_alphanumeric() || row["upper"] != c.is_uppercase() || row["up"] != up || row["lo"] != lo
+                    || row["code"] != (c as u32) {
+                    bad.push(serde_json::json!({"c": c.to_string(), "rust": {"alnum": c.is_alphanumeric(), "upper": c.is_uppercase(), "up": up, "lo": lo}, "table": row}));
+                }
+            }
+            println!("{}", serde_json::json!({"kind": "chars", "rows": table.as_array().unwrap().len(), "bad": bad}));
+        }
         "merge-replay" => merge::replay(&args),
         "merge-record" => merge::record(&args),
         "parser-replay" => parse::replay(&args),
